@@ -1,10 +1,229 @@
-(* C12 property theorems only: each closed by `exact <lemma>` with Print Assumptions beneath. *)
-From Coq Require Import Reals List.
+(* C12 property theorems only: each closed by `exact <lemma>` with Print Assumptions beneath.
+   All definitions named g_*, aabb_*, vec_*, rot_*, m_* and fx_table are GENERATED from the current source
+   (Gen.v); RO = Rops, the operations record instantiated with Coq's reals. *)
+From Coq Require Import Reals List Bool String.
 Import ListNotations.
-Require Import MV.C12.Model MV.C12.Gen MV.C12.Proofs.
+Require Import MV.C12.Model MV.C12.Gen MV.C12.ProofsLib MV.C12.ProofsBox MV.C12.ProofsVec MV.C12.ProofsFx MV.C12.ProofsEx.
 Open Scope R_scope.
 
+(* ---------------------------------------------------------------- boxes *)
+(* the projection lies in the closed box and realises the point-box distance in each of the three norms *)
+Theorem C12_box_project : forall (b : box R) (p q : vec R) (k : nkind),
+  nonempty b -> k <> KBad -> aabb_project R RO b p = Ret q ->
+  in_box b q /\
+  exists d, aabb_distance R RO b p k = Ret d /\
+            g_norm R RO (vsub RO p q) k = Ret d /\
+            forall q' d', in_box b q' -> g_norm R RO (vsub RO p q') k = Ret d' -> d <= d'.
+Proof. exact box_project. Qed.
+Print Assumptions C12_box_project.
+
+Theorem C12_box_project_total : forall (b : box R) (p : vec R),
+  wf_box b -> List.length p = bdim b -> exists q, aabb_project R RO b p = Ret q.
+Proof. exact box_project_total. Qed.
+Print Assumptions C12_box_project_total.
+
+Theorem C12_box_wrong_dimension_raises : forall (b : box R) (p : vec R) (k : nkind),
+  List.length p <> bdim b ->
+  aabb_project R RO b p = Raise IncompatibleDimension /\
+  aabb_distance R RO b p k = Raise IncompatibleDimension /\
+  aabb_contains_point R RO b p = Raise IncompatibleDimension.
+Proof. exact box_wrong_dimension. Qed.
+Print Assumptions C12_box_wrong_dimension_raises.
+
+Theorem C12_box_contained_distance_zero : forall (b : box R) (p : vec R) (k : nkind),
+  wf_box b -> k <> KBad -> aabb_contains_point R RO b p = Ret true -> aabb_distance R RO b p k = Ret 0.
+Proof. exact box_contained_distance_zero. Qed.
+Print Assumptions C12_box_contained_distance_zero.
+
+Theorem C12_box_contains_half_open : forall (b : box R) (p : vec R) (c : bool),
+  wf_box b -> aabb_contains_point R RO b p = Ret c ->
+  (c = true <-> all3 (fun l h x => l <= x < h) (blo b) (bhi b) p).
+Proof. exact box_contains_spec. Qed.
+Print Assumptions C12_box_contains_half_open.
+
+Theorem C12_box_union : forall b1 b2 u : box R,
+  wf_box b1 -> wf_box b2 -> aabb_union R RO b1 b2 = Ret u ->
+  (forall p, in_box b1 p -> in_box u p) /\ (forall p, in_box b2 p -> in_box u p) /\
+  (forall v, wf_box v -> bdim v = bdim b1 ->
+             (forall p, in_box b1 p -> in_box v p) -> (forall p, in_box b2 p -> in_box v p) ->
+             nonempty b1 -> nonempty b2 -> forall p, in_box u p -> in_box v p).
+Proof. exact box_union. Qed.
+Print Assumptions C12_box_union.
+
+Theorem C12_box_intersection : forall b1 b2 w : box R,
+  wf_box b1 -> wf_box b2 -> aabb_intersection R RO b1 b2 = Ret w ->
+  forall p, in_box w p <-> in_box b1 p /\ in_box b2 p.
+Proof. exact box_intersection. Qed.
+Print Assumptions C12_box_intersection.
+
+Theorem C12_box_do_intersect : forall (b1 b2 w : box R) (r : bool),
+  wf_box b1 -> wf_box b2 -> aabb_do_intersect R RO b1 b2 = Ret r -> aabb_intersection R RO b1 b2 = Ret w ->
+  (r = true <-> Forall (fun e => 0 <= e) (aabb_span R RO w)) /\
+  (r = true <-> exists p, in_box b1 p /\ in_box b2 p).
+Proof. exact box_do_intersect. Qed.
+Print Assumptions C12_box_do_intersect.
+
+Theorem C12_box_of_points_tight : forall (pts : list (vec R)) (pad : R) (b : box R),
+  aabb_of_points R RO pts pad = Ret b ->
+  pts <> [] /\ wf_box b /\
+  (forall p, In p pts -> all3 (fun l h x => l + pad <= x <= h - pad) (blo b) (bhi b) p) /\
+  (forall j, (j < bdim b)%nat ->
+     (exists p, In p pts /\ nth j p 0 = nth j (blo b) 0 + pad) /\
+     (exists p, In p pts /\ nth j p 0 = nth j (bhi b) 0 - pad)).
+Proof. exact box_of_points. Qed.
+Print Assumptions C12_box_of_points_tight.
+
+Theorem C12_box_pad : forall (b b' : box R) (v : vec R),
+  wf_box b -> aabb_pad_vec R RO b v = Ret b' ->
+  wf_box b' /\ (forall p, in_box b p -> in_box b' p) /\ (Forall (fun y => y <= 0) v -> b' = b).
+Proof. exact box_pad. Qed.
+Print Assumptions C12_box_pad.
+
+(* ---------------------------------------------------------------- cross / determinants *)
 Theorem C12_cross_expansion : forall a0 a1 a2 b0 b1 b2 : R,
-  g_cross R Rops [a0; a1; a2] [b0; b1; b2] = [a1 * b2 - a2 * b1; a2 * b0 - a0 * b2; a0 * b1 - a1 * b0].
+  g_cross R RO [a0; a1; a2] [b0; b1; b2] = [a1 * b2 - a2 * b1; a2 * b0 - a0 * b2; a0 * b1 - a1 * b0].
 Proof. exact cross_expansion. Qed.
 Print Assumptions C12_cross_expansion.
+
+Theorem C12_det_expansions : forall a0 a1 a2 b0 b1 b2 c0 c1 c2 : R,
+  g_det_2x2 R RO [a0; a1] [b0; b1] = a0 * b1 - a1 * b0 /\
+  g_det_3x3 R RO [a0; a1; a2] [b0; b1; b2] [c0; c1; c2]
+  = a0 * (b1 * c2 - b2 * c1) - a1 * (b0 * c2 - b2 * c0) + a2 * (b0 * c1 - b1 * c0) /\
+  g_det_3x3 R RO [a0; a1; a2] [b0; b1; b2] [c0; c1; c2]
+  = g_dot R RO [a0; a1; a2] (g_cross R RO [b0; b1; b2] [c0; c1; c2]).
+Proof. exact det_expansions. Qed.
+Print Assumptions C12_det_expansions.
+
+Theorem C12_lagrange : forall a0 a1 a2 b0 b1 b2 : R,
+  let a := [a0; a1; a2] in let b := [b0; b1; b2] in
+  g_dot R RO (g_cross R RO a b) (g_cross R RO a b)
+  = g_dot R RO a a * g_dot R RO b b - g_dot R RO a b * g_dot R RO a b /\
+  g_dot R RO (g_cross R RO a b) a = 0 /\ g_dot R RO (g_cross R RO a b) b = 0 /\
+  g_cross R RO b a = vneg RO (g_cross R RO a b).
+Proof. exact lagrange. Qed.
+Print Assumptions C12_lagrange.
+
+(* ---------------------------------------------------------------- rotations *)
+Theorem C12_rotation_isometry : forall (x y z a0 a1 a2 angle c s : R) (out : vec R),
+  c * c + s * s = 1 ->
+  rot_rotate_around_axis R RO [x; y; z] [a0; a1; a2] angle c s = Ret out -> sumsq out = sumsq [x; y; z].
+Proof. exact rotation_isometry. Qed.
+Print Assumptions C12_rotation_isometry.
+
+Theorem C12_rotation_fixes_axis : forall (a0 a1 a2 angle c s : R) (out : vec R),
+  rot_rotate_around_axis R RO [a0; a1; a2] [a0; a1; a2] angle c s = Ret out -> out = [a0; a1; a2].
+Proof. exact rotation_fixes_axis. Qed.
+Print Assumptions C12_rotation_fixes_axis.
+
+(* angle_ok a : a = 0 or |a| >= 1e-12, the code's own cut-off below which it does not rotate at all *)
+Theorem C12_rotation_additive : forall (x y z a0 a1 a2 a b : R) (r1 r2 : vec R),
+  angle_ok a -> angle_ok b -> angle_ok (a + b) ->
+  rot_rotate_around_axis R RO [x; y; z] [a0; a1; a2] a (cos a) (sin a) = Ret r1 ->
+  rot_rotate_around_axis R RO r1 [a0; a1; a2] b (cos b) (sin b) = Ret r2 ->
+  rot_rotate_around_axis R RO [x; y; z] [a0; a1; a2] (a + b) (cos (a + b)) (sin (a + b)) = Ret r2.
+Proof. exact rotation_additive. Qed.
+Print Assumptions C12_rotation_additive.
+
+Theorem C12_rotate_2d : forall x y a b : R,
+  sumsq (rot_rotate_2d R RO [x; y] a (cos a) (sin a)) = sumsq [x; y] /\
+  rot_rotate_2d R RO (rot_rotate_2d R RO [x; y] a (cos a) (sin a)) b (cos b) (sin b)
+  = rot_rotate_2d R RO [x; y] (a + b) (cos (a + b)) (sin (a + b)).
+Proof. exact rotate_2d_laws. Qed.
+Print Assumptions C12_rotate_2d.
+
+(* ---------------------------------------------------------------- angles (a pair (x, y) is what atan2(y, x) receives) *)
+Theorem C12_angle_3pts_symmetric : forall a0 a1 a2 b0 b1 b2 c0 c1 c2 : R,
+  let A := [a0; a1; a2] in let B := [b0; b1; b2] in let C := [c0; c1; c2] in
+  g_angle_3pts R RO A B C = g_angle_3pts R RO C B A /\ 0 <= snd (g_angle_3pts R RO A B C) /\
+  fst (g_angle_3pts R RO A B C) = g_dot R RO (vsub RO A B) (vsub RO C B) /\
+  snd (g_angle_3pts R RO A B C) = sqrt (sumsq (g_cross R RO (vsub RO A B) (vsub RO C B))).
+Proof. exact angle_3pts_pair. Qed.
+Print Assumptions C12_angle_3pts_symmetric.
+
+Theorem C12_angle_3pts_in_0_pi : forall (A B C : vec R) (theta : R),
+  is_atan2 theta (snd (g_angle_3pts R RO A B C)) (fst (g_angle_3pts R RO A B C)) -> 0 <= theta <= PI.
+Proof. exact angle_3pts_range. Qed.
+Print Assumptions C12_angle_3pts_in_0_pi.
+
+(* Full statement: for all V1 V2 N, signed_angle(V2, V1, N) = - signed_angle(V1, V2, N) (mod 2 pi).
+   Proved under the guard that N orients the pair ((V1 x V2).N <> 0) or the vectors are collinear;
+   C12_signed_angle_guard_is_needed shows the guard cannot be dropped (N in the plane of V1, V2). *)
+Theorem C12_signed_angle_antisymmetric_partial : forall a0 a1 a2 b0 b1 b2 n0 n1 n2 : R,
+  let V1 := [a0; a1; a2] in let V2 := [b0; b1; b2] in let N := [n0; n1; n2] in
+  g_dot R RO (g_cross R RO V1 V2) N <> 0 \/ g_cross R RO V1 V2 = [0; 0; 0] ->
+  g_signed_angle_2vec3D R RO V2 V1 N = conj (g_signed_angle_2vec3D R RO V1 V2 N).
+Proof. exact signed_angle_antisym. Qed.
+Print Assumptions C12_signed_angle_antisymmetric_partial.
+
+Theorem C12_signed_angle_guard_is_needed :
+  g_signed_angle_2vec3D R RO [0; 1; 0] [1; 0; 0] [1; 0; 0] = g_signed_angle_2vec3D R RO [1; 0; 0] [0; 1; 0] [1; 0; 0]
+  /\ snd (g_signed_angle_2vec3D R RO [1; 0; 0] [0; 1; 0] [1; 0; 0]) = 1.
+Proof. exact signed_angle_guard_needed. Qed.
+Print Assumptions C12_signed_angle_guard_is_needed.
+
+Theorem C12_angle_2vec2D_antisymmetric : forall a0 a1 b0 b1 : R,
+  g_angle_2vec2D R RO [b0; b1] [a0; a1] = conj (g_angle_2vec2D R RO [a0; a1] [b0; b1]).
+Proof. exact angle_2vec2D_antisym. Qed.
+Print Assumptions C12_angle_2vec2D_antisymmetric.
+
+(* cotan * tan = 1 with tan(ABC) = |BA x BC| / (BA . BC) *)
+Theorem C12_cotan_reciprocal_tangent : forall a0 a1 a2 b0 b1 b2 c0 c1 c2 k : R,
+  let u := vsub RO [a0; a1; a2] [b0; b1; b2] in let v := vsub RO [c0; c1; c2] [b0; b1; b2] in
+  sumsq (g_cross R RO u v) <> 0 ->
+  g_cotan R RO [a0; a1; a2] [b0; b1; b2] [c0; c1; c2] = Ret k ->
+  k * sqrt (sumsq (g_cross R RO u v)) = g_dot R RO u v.
+Proof. exact cotan_spec. Qed.
+Print Assumptions C12_cotan_reciprocal_tangent.
+
+Theorem C12_circumcenter_equidistant : forall (a0 a1 a2 b0 b1 b2 c0 c1 c2 : R) (P : vec R),
+  g_circumcenter R RO [a0; a1; a2] [b0; b1; b2] [c0; c1; c2] = Ret P ->
+  sumsq (vsub RO P [a0; a1; a2]) = sumsq (vsub RO P [b0; b1; b2]) /\
+  sumsq (vsub RO P [a0; a1; a2]) = sumsq (vsub RO P [c0; c1; c2]) /\
+  g_det_3x3 R RO (vsub RO P [a0; a1; a2]) (vsub RO [b0; b1; b2] [a0; a1; a2]) (vsub RO [c0; c1; c2] [a0; a1; a2]) = 0.
+Proof. exact circumcenter_equidistant. Qed.
+Print Assumptions C12_circumcenter_equidistant.
+
+(* ---------------------------------------------------------------- maths.py *)
+Theorem C12_principal_angle : forall a : R,
+  (exists k : Z, m_principal_angle R RO a = a + 2 * PI * IZR k) /\ - PI < m_principal_angle R RO a <= PI.
+Proof. exact principal_angle_spec. Qed.
+Print Assumptions C12_principal_angle.
+
+Theorem C12_angle_diff : forall a b : R,
+  (exists k : Z, m_angle_diff R RO a b = (a - b) + 2 * PI * IZR k) /\ - PI <= m_angle_diff R RO a b < PI.
+Proof. exact angle_diff_spec. Qed.
+Print Assumptions C12_angle_diff.
+
+(* with (|c|, t) = cmath.polar(c): every returned root, to the n-th power, is (cos t, sin t) = c / |c| *)
+Theorem C12_roots_power : forall (t : R) (n k : nat), (0 < n)%nat ->
+  let th := m_root_angle R RO t (INR k) (INR n) in
+  cpow (cos th, sin th) n = (cos t, sin t).
+Proof. exact roots_power. Qed.
+Print Assumptions C12_roots_power.
+
+(* ---------------------------------------------------------------- no side effects *)
+(* the event table regenerated from the five source files passes the purity check ... *)
+Theorem C12_fx_table_safe : table_ok fx_table = true.
+Proof. exact fx_table_safe. Qed.
+Print Assumptions C12_fx_table_safe.
+
+(* ... hence any call of any of their functions, from any state, with any arguments, returning or raising,
+   leaves numpy's error register as found, changes no cell that existed before the call - except, for the
+   functions documented to modify self, the cells of argument 0 - and stores only fresh arrays in a box *)
+Theorem C12_no_side_effects_call : forall (V E : Type) (f : string) (body : list ev) (n0 : nat) (env : nat -> list nat)
+    (s : st V E) (o : outcome) (s' : st V E) (sd : list nat),
+  lookup fx_table f = Some body -> exec V E fx_table n0 env body s o s' sd ->
+  err V E s' = err V E s /\
+  (forall c, (c < n0)%nat -> (str_in f self_mutators = false \/ ~ In c (env 0%nat)) -> cells V E s' c = cells V E s c) /\
+  Forall (fun c => (n0 <= c)%nat) sd.
+Proof. exact no_side_effects_call. Qed.
+Print Assumptions C12_no_side_effects_call.
+
+(* ... and so does any sequence of calls *)
+Theorem C12_no_side_effects_history : forall (V E : Type) (s : st V E) (h : list (string * (nat -> list nat) * nat)) (s' : st V E),
+  hist V E fx_table s h s' ->
+  err V E s' = err V E s /\
+  forall c, (forall f env n0, In (f, env, n0) h -> (c < n0)%nat /\ (str_in f self_mutators = false \/ ~ In c (env 0%nat))) ->
+            cells V E s' c = cells V E s c.
+Proof. exact no_side_effects_history. Qed.
+Print Assumptions C12_no_side_effects_history.
